@@ -63,6 +63,8 @@ def load():
             SPEC_REGISTRY[spec.cls] = spec
             if spec.window is not None and "C07" not in spec.props:
                 spec.props.append("C07")  # the step task carries the work-bound (cost) obligations
+            if "C13" not in spec.props:
+                spec.props.append("C13")  # ... and the namespace (own-prefix) and write-frame obligations
             for var in list(spec.variants) + [dict(spec.variants[0], mode="index")]:
                 vname = ",".join(f"{k}={v}" for k, v in var.items())
                 reg.ind_tasks[spec.cls + (f"[{vname}]" if vname else "")] = (spec, var)
